@@ -218,11 +218,19 @@ def ops_module(idx, n, kind, entry, ops=None, generic=False, bounds=None, selfbo
     only = ""
     if generic and selfbound:
         # `Only<U>` holds for U = T<Tm> alone: an impl in which the struct's `Self` came to mean something else does not apply
-        only = "    pub trait Only<U: ?::core::marker::Sized> {}\n    impl Only<T<::dx_support::Tm>> for ::dx_support::Tm {}"
+        only = ("    pub trait Only<U: ?::core::marker::Sized> {}\n    impl Only<T<::dx_support::Tm>> for ::dx_support::Tm {}\n"
+                # `Self` NESTED in the arguments of other types: these hold for the user's own Self alone as well
+                "    impl Only<::core::option::Option<T<::dx_support::Tm>>> for ::dx_support::Tm {} impl Only<::std::vec::Vec<T<::dx_support::Tm>>> for ::dx_support::Tm {}\n"
+                "    impl Only<(T<::dx_support::Tm>, u8)> for ::dx_support::Tm {} impl Only<[T<::dx_support::Tm>; 1]> for ::dx_support::Tm {} impl Only<::std::boxed::Box<T<::dx_support::Tm>>> for ::dx_support::Tm {}\n"
+                "    pub trait OnlyN {} impl OnlyN for ::core::option::Option<T<::dx_support::Tm>> {} impl OnlyN for ::std::vec::Vec<(T<::dx_support::Tm>, u8)> {}")
     if generic and selfbound == "inline":
         g = "<X: ::dx_support::Rel<Self> + Only<Self>>"
     elif generic and selfbound == "where":
         wh = " where X: ::dx_support::Rel<Self> + Only<Self>"
+    elif generic and selfbound == "nested_inline":
+        g = "<X: ::dx_support::Rel<::core::option::Option<Self>> + Only<::std::vec::Vec<Self>> + Only<(Self, u8)>>"
+    elif generic and selfbound == "nested_where":
+        wh = " where X: Only<::std::boxed::Box<Self>> + Only<[Self; 1]>, ::core::option::Option<Self>: OnlyN, ::std::vec::Vec<(Self, u8)>: OnlyN + ::dx_support::Rel<::core::option::Option<Self>>"
     TT = ("T<::dx_support::%s>" % leaf) if generic else "T"
     mkleaf = "tm" if leaf == "Tm" else "::dx_support::tc"
     # field names: declaration order need not be alphabetical (names = "rev": f2, f1, f0; "mixed": zb, a, Zc ..)
@@ -350,6 +358,10 @@ def implop_module(idx, op, base, rhs_self, want_bin, want_assign, base_is_assign
         # another type (or was not carried over) stops applying at the call sites of the driver
         if generic == "where":
             ig, iw = "<G>", " where G: ::core::marker::Copy + Only<Self>, Self: ::core::marker::Sized"
+        elif generic == "nested":
+            # `Self` only NESTED in the arguments of other types
+            ig, iw = "<G>", (" where G: ::core::marker::Copy + Only<::core::option::Option<Self>>, ::std::vec::Vec<Self>: ::core::marker::Sized, "
+                             "(Self, u8): ::core::marker::Sized + ::dx_support::Rel<[Self; 1]>")
         else:
             ig = "<G: ::core::marker::Copy + ::dx_support::Rel<Self> + Only<Self>>"
     fn = FN[op]
@@ -379,6 +391,8 @@ def implop_module(idx, op, base, rhs_self, want_bin, want_assign, base_is_assign
         impl = ("impl%s ::core::ops::%s<%s> for %s%s { type Output = %s; fn %s(self, rhs: %s) -> %s { ::dx_support::log(\"call\".to_string()); "
                 "%s(format!(\"base({},{})\", self.0, rhs.0)%s) } }" % (ig, op, rhs_txt, refty(L, bl == "r"), iw2, out_txt, fn, rhs_txt, L, ctor, mk2))
     only = ("    pub trait Only<U: ?::core::marker::Sized> {}\n    impl<%sG> Only<%sLT<G>> for G {}" % (("'x, ", "&'x ") if (bl == "r" and not base_is_assign) else ("", ""))) if generic else ""
+    if generic == "nested":
+        only = "    pub trait Only<U: ?::core::marker::Sized> {}\n    impl<G> Only<::core::option::Option<LT<G>>> for G {}"
     pj = ("    pub trait Pj { type O; }\n    impl%s Pj for %sLT { type O = LT; }" % (("<'x>", "&'x ") if bl == "r" else ("", ""))) if proj else ""
     operands = GENERIC_OPERANDS if generic else LOCAL_OPERANDS
     if rhs_noclone:
